@@ -30,8 +30,9 @@ ASSUMPTIONS = ["borders finite, left < right, bits >= 1 (degenerate boxes / zero
                "exact model: IEEE rounding of left + h*k is outside it (dyadic inputs make the float computation exact; "
                "otherwise 4 ulp of max(|left|,|right|) are accepted)"]
 TRUSTED = ["models: coq/theories/Gray.v, coq/theories/Grid.v; check functions coq/theories/C10Check.v",
+           "code translator harness/translate_code.py + coq/theories/Py.v (array forms pow2s, matvecZ, xor_accumulate_rows, logical_xor2, column slices, hstack_col0): the decoders proved equal to the row-wise models (theories/CodeEqC10.v)",
            "numpy float64 arithmetic is IEEE-754 (exactness of dyadic computations)"]
-THEORIES = ["Base", "Gray", "Grid", "GridProofs", "C10Check"]
+THEORIES = ["Base", "Gray", "Grid", "GridProofs", "C10Check", "RandomPrims", "Py", "PyLemmas", "GenCode", "CodeEqC10"]
 
 IMPORTS = "From TF Require Import Base Gray Grid C10Check."
 SIG_WIDTH = "inverse_transform:width-from-batch-max"
@@ -260,6 +261,12 @@ class Fams:
         if name not in self.f:
             self.f[name] = C.CoqCases(self.ctx.scratch, name, IMPORTS, check, ctype, shard=shard)
         return self.f[name]
+
+
+def gen(ctx):
+    """(T) the decoders are translated from utils/transformations.py on every run; fail closed"""
+    import translate_code as TC
+    TC.ensure(TC.C10_METHODS)
 
 
 def run(ctx, rep):
